@@ -72,11 +72,21 @@ def _main() -> int:
         colored = resolve_color_mode(ColorMode(args.color), stream=sys.stdout)
 
         with PenlogReader(path) as reader:
-            record_generator = reader.records(args.priority, reverse=args.reverse)
+            if len(reader) == 0:
+                continue
+
+            if args.reverse:
+                record_generator = reader.records(
+                    args.priority, offset=len(reader) - 1, reverse=True
+                )
+            else:
+                record_generator = reader.records(args.priority)
             if args.head:
                 record_generator = islice(record_generator, args.lines)
             elif args.tail:
-                record_generator = reader.records(args.priority, offset=-args.lines)
+                record_generator = reader.records(
+                    args.priority, offset=max(len(reader) - args.lines, 0)
+                )
 
             for record in record_generator:
                 record.colored = colored
